@@ -103,6 +103,11 @@ def join_all(threads):
         t.join()
 
 
+def step():
+    """Engine B: index of the scheduler step in which the caller's current block runs (a logical clock)"""
+    return 0
+
+
 def is_symbolic():
     return False
 
@@ -229,6 +234,7 @@ def install(vm):
     vm.register_model(reach, m_reach)
     vm.register_model(log, m_log)
     vm.register_model(is_symbolic, m_is_symbolic)
+    vm.register_model(step, lambda vm, s, a, k: (vm.sched.k if vm.sched is not None else 0))
 
     def m_join_all(vm, s, args, kw):
         from . import containers as C
